@@ -300,6 +300,9 @@ func runDetChart(res *core.Result, cs *chartSpec, rng *rand.Rand, root string, i
 		res.Evals++
 	}
 	saved.restore()
+	// (4) renders that FAIL in between (an unrelated chart / this chart with a failing template):
+	// the next render of the chart must give the bytes of the clean base render (failing.go)
+	core.Guard(res, "render after a failed render", func() { afterFailedRenders(res, j, cs, rng, fresh) })
 	if cs.nonTrivial() {
 		res.Key("det|%s", cs.shape())
 	}
